@@ -6245,7 +6245,7 @@ bool SoPlexBase<R>::setIntParam(const IntParam param, const int value, const boo
          break;
 
       case SYNCMODE_AUTO:
-         if(intParam(param) == SYNCMODE_ONLYREAL)
+         if(intParam(param) == SYNCMODE_ONLYREAL || _rationalLP == nullptr)
             _syncLPRational();
 
          break;
